@@ -550,3 +550,194 @@ Proof.
   assert (Hm : min3 c c c = c) by (unfold min3, Rmin; decs).
   unfold hsv_s, hsv_v. rewrite HM, Hm. split; [|reflexivity]. unfold Rdiv. ring.
 Qed.
+
+(* ================================================================== sRGB <-> CIE L*a*b* *)
+Lemma Rpower_neg_antitone c a x : c < 0 -> 0 < a -> a <= x -> Rpower x c <= Rpower a c.
+Proof.
+  intros Hc Ha Hx. destruct (Req_dec a x) as [->|N]; [lra|].
+  left. unfold Rpower. apply exp_increasing.
+  assert (ln a < ln x) by (apply ln_increasing; lra). nra.
+Qed.
+Lemma Rpower_lip e a x y : 0 < e < 1 -> 0 < a -> a <= x -> x <= y ->
+  0 <= Rpower y e - Rpower x e <= e * Rpower a (e - 1) * (y - x).
+Proof.
+  intros He Ha Hx Hy. destruct (Req_dec x y) as [->|N].
+  - replace (Rpower y e - Rpower y e) with 0 by ring. replace (y - y) with 0 by ring. lra.
+  - assert (L : x < y) by lra.
+    destruct (MVT_cor2 (fun t => Rpower t e) (fun t => e * Rpower t (e - 1)) x y L) as (c & Hc & Hcb).
+    { intros c Hc. apply derivable_pt_lim_power. lra. }
+    rewrite Hc. assert (P : 0 < Rpower c (e - 1)) by apply exp_pos.
+    pose proof (Rpower_neg_antitone (e - 1) a c ltac:(lra) Ha ltac:(lra)) as Q.
+    split.
+    + apply Rmult_le_pos; [apply Rmult_le_pos|]; lra.
+    + apply Rmult_le_compat_r; [lra|]. apply Rmult_le_compat_l; lra.
+Qed.
+
+(* the encoder is Lipschitz with the slope of its linear part, up to the step at the knee *)
+Lemma enc_slope : 1.055 * (inv_gamma * Rpower srgb_thr (inv_gamma - 1)) <= 12.92.
+Proof. unfold inv_gamma, srgb_thr. interval. Qed.
+Lemma to_srgb_lip x y : x <= y -> - (3 / 10 ^ 8) <= to_srgb y - to_srgb x <= 12.92 * (y - x).
+Proof.
+  intros H. pose proof enc_slope as K. pose proof enc_knee_step as S.
+  assert (T : 0 < srgb_thr) by (unfold srgb_thr; lra).
+  assert (G : 0 < inv_gamma < 1) by (unfold inv_gamma; lra).
+  unfold to_srgb. case_ltb srgb_thr x; case_ltb srgb_thr y; try lra.
+  - rewrite !Rmax_l by lra.
+    pose proof (Rpower_lip inv_gamma srgb_thr x y G T ltac:(lra) H) as [L1 L2].
+    assert (inv_gamma * Rpower srgb_thr (inv_gamma - 1) * (y - x) <= 12.92 / 1.055 * (y - x)).
+    { apply Rmult_le_compat_r; [lra|]. apply Rmult_le_reg_l with 1.055; [lra|]. 
+      replace (1.055 * (12.92 / 1.055)) with 12.92 by lra. exact K. }
+    lra.
+  - rewrite Rmax_l by lra.
+    pose proof (Rpower_lip inv_gamma srgb_thr srgb_thr y G T ltac:(lra) ltac:(lra)) as [L1 L2].
+    assert (inv_gamma * Rpower srgb_thr (inv_gamma - 1) * (y - srgb_thr) <= 12.92 / 1.055 * (y - srgb_thr)).
+    { apply Rmult_le_compat_r; [lra|]. apply Rmult_le_reg_l with 1.055; [lra|]. 
+      replace (1.055 * (12.92 / 1.055)) with 12.92 by lra. exact K. }
+    lra.
+Qed.
+Lemma to_srgb_close x y d : Rabs (y - x) <= d -> Rabs (to_srgb y - to_srgb x) <= 12.92 * d + 3 / 10 ^ 8.
+Proof.
+  intros H. apply Rabs_le_inv' in H. apply Rabs_le. destruct (Rle_dec x y) as [L|L].
+  - pose proof (to_srgb_lip x y L). lra.
+  - pose proof (to_srgb_lip y x ltac:(lra)). lra.
+Qed.
+
+(* ---- the CIE nonlinearity and its inverse, with the code's binary64 constants *)
+Lemma lab_f_knee : lab_delta < Rpower lab_delta_cube lab_third.
+Proof. unfold lab_delta, lab_delta_cube, lab_third. interval with (i_prec 120). Qed.
+Lemma lab_f_low t : 0 <= t <= lab_delta_cube -> lab_factor * t + lab_c429 <= lab_delta.
+Proof. unfold lab_delta_cube, lab_factor, lab_c429, lab_delta. intros H. lra. Qed.
+Lemma lab_finv_f t : 0 <= t <= 1.1 -> Rabs (lab_finv (lab_f t) - t) <= 1 / 10 ^ 14.
+Proof.
+  intros Ht. unfold lab_f. case_ltb lab_delta_cube t.
+  - assert (T : 0 < t) by (unfold lab_delta_cube in *; lra).
+    assert (K : lab_delta < Rpower t lab_third).
+    { pose proof lab_f_knee. assert (Rpower lab_delta_cube lab_third < Rpower t lab_third).
+      { apply Rlt_Rpower_l; unfold lab_third, lab_delta_cube in *; lra. } lra. }
+    unfold lab_finv. rewrite Rltb_is_true by exact K.
+    replace (Rpower t lab_third ^ 3) with (Rpower (Rpower t lab_third) (INR 3)) by (apply Rpower_pow; apply exp_pos).
+    rewrite Rpower_mult. replace (lab_third * INR 3) with (1 + (3 * lab_third - 1)) by (simpl; ring).
+    rewrite Rpower_succ by exact T.
+    replace (t * Rpower t (3 * lab_third - 1) - t) with (t * (Rpower t (3 * lab_third - 1) - 1)) by ring.
+    unfold lab_third, lab_delta_cube in *. interval with (i_prec 120).
+  - pose proof (lab_f_low t ltac:(lra)) as L. unfold lab_finv. rewrite Rltb_is_false by exact L.
+    unfold lab_factor2, lab_factor, lab_c429, lab_delta_cube in *. apply Rabs_le. lra.
+Qed.
+(* Lipschitz bound for f *)
+Lemma lab_f_slope : lab_third * Rpower lab_delta_cube (lab_third - 1) <= 7.8.
+Proof. unfold lab_third, lab_delta_cube. interval. Qed.
+Lemma lab_f_step : 0 <= Rpower lab_delta_cube lab_third - (lab_factor * lab_delta_cube + lab_c429) <= 1 / 10 ^ 15.
+Proof. unfold lab_third, lab_delta_cube, lab_factor, lab_c429. split; interval with (i_prec 120). Qed.
+Lemma lab_f_lip x y : 0 <= x -> x <= y -> 0 <= lab_f y - lab_f x <= 7.8 * (y - x) + 1 / 10 ^ 15.
+Proof.
+  intros H0 H. pose proof lab_f_slope as K. pose proof lab_f_step as S.
+  assert (T : 0 < lab_delta_cube) by (unfold lab_delta_cube; lra).
+  assert (G : 0 < lab_third < 1) by (unfold lab_third; lra).
+  assert (F : lab_factor <= 7.8 /\ 0 < lab_factor) by (unfold lab_factor; lra).
+  unfold lab_f. case_ltb lab_delta_cube x; case_ltb lab_delta_cube y; try lra.
+  - pose proof (Rpower_lip lab_third lab_delta_cube x y G T ltac:(lra) H) as [L1 L2].
+    assert (lab_third * Rpower lab_delta_cube (lab_third - 1) * (y - x) <= 7.8 * (y - x)) by (apply Rmult_le_compat_r; lra).
+    lra.
+  - pose proof (Rpower_lip lab_third lab_delta_cube lab_delta_cube y G T ltac:(lra) ltac:(lra)) as [L1 L2].
+    assert (lab_third * Rpower lab_delta_cube (lab_third - 1) * (y - lab_delta_cube) <= 7.8 * (y - lab_delta_cube)) by (apply Rmult_le_compat_r; lra).
+    assert (lab_factor * (lab_delta_cube - x) <= 7.8 * (lab_delta_cube - x)) by (apply Rmult_le_compat_r; lra).
+    assert (0 <= lab_factor * (lab_delta_cube - x)) by (apply Rmult_le_pos; lra).
+    lra.
+  - assert (lab_factor * (y - x) <= 7.8 * (y - x)) by (apply Rmult_le_compat_r; lra).
+    assert (0 <= lab_factor * (y - x)) by (apply Rmult_le_pos; lra). lra.
+Qed.
+
+(* agreement of the code's nonlinearity (binary64 constants) with CIE's exact one *)
+Lemma lab_f_cie t : 0 <= t <= 1.1 -> Rabs (lab_f t - cie_f t) <= 1 / 10 ^ 15.
+Proof.
+  intros Ht. unfold lab_f, cie_f. case_ltb lab_delta_cube t; case_ltb ((6 / 29) ^ 3) t.
+  - unfold lab_third, lab_delta_cube in *.
+    replace 0.3333333333333333 with (1 / 3 + (0.3333333333333333 - 1 / 3)) by ring.
+    rewrite Rpower_plus.
+    replace (Rpower t (1 / 3) * Rpower t (0.3333333333333333 - 1 / 3) - Rpower t (1 / 3))
+      with (Rpower t (1 / 3) * (Rpower t (0.3333333333333333 - 1 / 3) - 1)) by ring.
+    interval with (i_prec 120).
+  - unfold lab_third, lab_delta_cube in *. assert (0.008856451679035631 <= t <= (6 / 29) ^ 3) by lra.
+    interval with (i_prec 150).
+  - unfold lab_factor, lab_c429, lab_delta_cube in *. assert ((6 / 29) ^ 3 <= t <= 0.008856451679035631) by lra.
+    interval with (i_prec 150).
+  - unfold lab_factor, lab_c429, lab_delta_cube in *. assert (0 <= t <= 0.008856451679035631) by lra.
+    replace (7.787037037037036 * t + 0.13793103448275862 - (t / (3 * (6 / 29) ^ 2) + 4 / 29))
+      with ((7.787037037037036 - 1 / (3 * (6 / 29) ^ 2)) * t + (0.13793103448275862 - 4 / 29)) by (field; lra).
+    interval with (i_prec 120).
+Qed.
+
+(* ---- white and greys *)
+Lemma white_lab : Rabs (lab_L 1 1 1 - 100) <= 1 / 10 ^ 9 /\ Rabs (lab_a 1 1 1) <= 1 / 10 ^ 5 /\ Rabs (lab_b 1 1 1) <= 1 / 10 ^ 5.
+Proof.
+  unfold lab_L, lab_a, lab_b, lab_fx, lab_fy, lab_fz. rewrite to_lin_1.
+  unfold lab_f, lab_X, lab_Y, lab_Z, mrow, lab_wx, lab_wz, lab_delta_cube, lab_third.
+  rewrite !Rltb_is_true by lra. repeat split; interval with (i_prec 80).
+Qed.
+Lemma black_lab : lab_L 0 0 0 = 116 * lab_c429 - 16 /\ lab_a 0 0 0 = 0 /\ lab_b 0 0 0 = 0.
+Proof.
+  unfold lab_L, lab_a, lab_b, lab_fx, lab_fy, lab_fz. rewrite to_lin_0.
+  unfold lab_f, lab_X, lab_Y, lab_Z, mrow, lab_wx, lab_wz, lab_delta_cube.
+  rewrite !Rltb_is_false by lra. repeat split; ring.
+Qed.
+Lemma black_lab_L : Rabs (lab_L 0 0 0) <= 1 / 10 ^ 13.
+Proof. destruct black_lab as (-> & _). unfold lab_c429. apply Rabs_le. lra. Qed.
+
+Lemma grey_lab c : 0 <= c <= 1 -> Rabs (lab_a c c c) <= 1 / 10 ^ 4 /\ Rabs (lab_b c c c) <= 1 / 10 ^ 4.
+Proof.
+  intros Hc. pose proof (to_lin_range c Hc) as Hl. set (l := to_lin c) in *.
+  unfold lab_a, lab_b, lab_fx, lab_fy, lab_fz. fold l.
+  set (x1 := lab_X l l l * lab_wx). set (y1 := lab_Y l l l). set (z1 := lab_Z l l l * lab_wz).
+  assert (Hx : 0 <= x1 /\ x1 <= y1 /\ y1 - x1 <= 25 / 10 ^ 9).
+  { unfold x1, y1, lab_X, lab_Y, mrow, lab_wx. repeat split; lra. }
+  assert (Hz : 0 <= y1 /\ y1 <= z1 /\ z1 - y1 <= 1 / 10 ^ 8).
+  { unfold z1, y1, lab_Z, lab_Y, mrow, lab_wz. repeat split; lra. }
+  pose proof (lab_f_lip x1 y1 ltac:(lra) ltac:(lra)). pose proof (lab_f_lip y1 z1 ltac:(lra) ltac:(lra)).
+  split; apply Rabs_le; lra.
+Qed.
+
+(* ---- sRGB -> Lab -> sRGB *)
+Lemma lab_rt r g b : 0 <= r <= 1 -> 0 <= g <= 1 -> 0 <= b <= 1 ->
+  Rabs (ilab_r (lab_L r g b) (lab_a r g b) (lab_b r g b) - r) <= 1 / 10 ^ 5 /\
+  Rabs (ilab_g (lab_L r g b) (lab_a r g b) (lab_b r g b) - g) <= 1 / 10 ^ 5 /\
+  Rabs (ilab_b (lab_L r g b) (lab_a r g b) (lab_b r g b) - b) <= 1 / 10 ^ 5.
+Proof.
+  intros Hr Hg Hb.
+  pose proof (to_lin_range r Hr) as Lr. pose proof (to_lin_range g Hg) as Lg. pose proof (to_lin_range b Hb) as Lb.
+  pose proof (gamma_rt r Hr) as Gr. pose proof (gamma_rt g Hg) as Gg. pose proof (gamma_rt b Hb) as Gb.
+  set (lr := to_lin r) in *. set (lg := to_lin g) in *. set (lb := to_lin b) in *.
+  set (NX := lab_X lr lg lb * lab_wx). set (NY := lab_Y lr lg lb). set (NZ := lab_Z lr lg lb * lab_wz).
+  assert (RX : 0 <= NX <= 1.1) by (unfold NX, lab_X, mrow, lab_wx; lra).
+  assert (RY : 0 <= NY <= 1.1) by (unfold NY, lab_Y, mrow; lra).
+  assert (RZ : 0 <= NZ <= 1.1) by (unfold NZ, lab_Z, mrow, lab_wz; lra).
+  assert (Fx : ilab_fx (lab_L r g b) (lab_a r g b) (lab_b r g b) = lab_f NX).
+  { unfold ilab_fx, lab_L, lab_a, lab_fx, lab_fy. fold lr lg lb. fold NX NY. field. }
+  assert (Fy : ilab_fy (lab_L r g b) (lab_a r g b) (lab_b r g b) = lab_f NY).
+  { unfold ilab_fy, lab_L, lab_fy. fold lr lg lb. fold NY. field. }
+  assert (Fz : ilab_fz (lab_L r g b) (lab_a r g b) (lab_b r g b) = lab_f NZ).
+  { unfold ilab_fz, lab_L, lab_b, lab_fz, lab_fy. fold lr lg lb. fold NZ NY. field. }
+  pose proof (lab_finv_f NX RX) as EX. pose proof (lab_finv_f NY RY) as EY. pose proof (lab_finv_f NZ RZ) as EZ.
+  apply Rabs_le_inv' in EX. apply Rabs_le_inv' in EY. apply Rabs_le_inv' in EZ.
+  unfold ilab_r, ilab_g, ilab_b, ilab_X, ilab_Y, ilab_Z. rewrite Fx, Fy, Fz. rewrite !to_srgb_nc_eq.
+  set (GX := lab_finv (lab_f NX)) in *. set (GY := lab_finv (lab_f NY)) in *. set (GZ := lab_finv (lab_f NZ)) in *.
+  unfold NX, NY, NZ, lab_X, lab_Y, lab_Z, mrow, lab_wx, lab_wz in EX, EY, EZ.
+  assert (Dr : Rabs (ilab_lr (GX * lab_xn) GY (GZ * lab_zn) - lr) <= 3 / 10 ^ 7).
+  { unfold ilab_lr, mrow, lab_xn, lab_zn. apply Rabs_le. lra. }
+  assert (Dg : Rabs (ilab_lg (GX * lab_xn) GY (GZ * lab_zn) - lg) <= 3 / 10 ^ 7).
+  { unfold ilab_lg, mrow, lab_xn, lab_zn. apply Rabs_le. lra. }
+  assert (Db : Rabs (ilab_lb (GX * lab_xn) GY (GZ * lab_zn) - lb) <= 3 / 10 ^ 7).
+  { unfold ilab_lb, mrow, lab_xn, lab_zn. apply Rabs_le. lra. }
+  pose proof (to_srgb_close _ _ _ Dr) as Cr. pose proof (to_srgb_close _ _ _ Dg) as Cg. pose proof (to_srgb_close _ _ _ Db) as Cb.
+  apply Rabs_le_inv' in Cr. apply Rabs_le_inv' in Cg. apply Rabs_le_inv' in Cb.
+  apply Rabs_le_inv' in Gr. apply Rabs_le_inv' in Gg. apply Rabs_le_inv' in Gb.
+  repeat split; apply Rabs_le; lra.
+Qed.
+
+(* ================================================================== packaged statements for Props.v *)
+Lemma grey_zero_chroma c : 0 <= c <= 1 ->
+  (ycc_y c c c = c /\ ycc_cr c c c = 1 / 2 /\ ycc_cb c c c = 1 / 2) /\
+  (hsv_s c c c = 0 /\ hsv_v c c c = c) /\
+  (Rabs (lab_a c c c) <= 1 / 10 ^ 4 /\ Rabs (lab_b c c c) <= 1 / 10 ^ 4).
+Proof. intros Hc. exact (conj (ycrcb_grey c) (conj (hsv_grey c) (grey_lab c Hc))). Qed.
+Lemma lab_layout k c m n : lab_dispatch [3%Z; m; n] = ChannelFirst /\ lab_dispatch [k; c; m; n] = Batch.
+Proof. exact (conj (lab_dispatch_documented m n) (lab_dispatch_batch k c m n)). Qed.
